@@ -429,12 +429,28 @@ Proof.
   exists (o :: obs). cbn [qexec clauses3]. rewrite E, Ex, Ec, all_ok_app, Ok, Ok2. auto.
 Qed.
 
+Lemma win_a : win_viol (xsteps [] win_remove_first) = (0, 0). Proof. vm_compute. reflexivity. Qed.
+Lemma win_b : win_viol (xsteps [] win_timer_first) = (0, 0). Proof. vm_compute. reflexivity. Qed.
+
+Lemma bridge_window : forall ops, forallb op_wf4 ops = true ->
+  exists obs, wexec ops = Some obs /\ all_ok (clauses4 ops obs) = true.
+Proof.
+  induction ops as [|op r IH]; intro W; [exists []; auto|].
+  cbn [forallb] in W. apply andb_true_iff in W. destruct W as (W1 & W2).
+  destruct (IH W2) as (obs & E & Ok).
+  unfold op_wf4 in W1. zcases W1. apply Z.leb_le in W1.
+  exists ([z * 0; z * 0] :: obs). cbn [wexec wstep]. rewrite win_a, win_b.
+  assert (z <? 0 = false) as -> by (apply Z.ltb_ge; lia). cbn [fst snd Z.add]. rewrite E. split; [reflexivity|].
+  cbn [clauses4]. rewrite !Z.mul_0_r. cbn. exact Ok.
+Qed.
+
 (* full statement (not proved for the cache kind, see spec level_note):
      forall cfg ops, wf cfg ops = true -> exists obs, run cfg ops = Some obs /\ holds_b cfg ops obs = true *)
-Theorem model_trace_holds_partial cfg ops : wf cfg ops = true -> cfg = [2] \/ cfg = [3] ->
+Theorem model_trace_holds_partial cfg ops : wf cfg ops = true -> cfg = [2] \/ cfg = [3] \/ cfg = [4] ->
   exists obs, run cfg ops = Some obs /\ holds_b cfg ops obs = true.
 Proof.
-  intros W [->| ->]; cbn in W; unfold run, holds_b, clauses.
+  intros W [->|[->| ->]]; cbn in W; unfold run, holds_b, clauses.
   - exact (bridge_event ops evs0 W eq_refl eq_refl).
   - apply (bridge_rc ops rcs0 (mkm3 1 true) W). intros _. cbn. unfold max_i32. repeat split; lia.
+  - exact (bridge_window ops W).
 Qed.
